@@ -14,7 +14,7 @@ def mk(t, n, strat, band=None):
     stages = [{'mod': 'ref', 'fn': '@R@pre', 'args': ['lam', 'del', 'mu', 'A']}, {'mod': 'wit', 'fn': '@W@', 'args': ['A', 'L', 'U']}, {'mod': 'ref', 'fn': '@R@exp', 'args': ['lam', 'del', 'mu', 'Le', 'Ue']}]
     # uniqueness of the factorisation: L must be lam and U must be del*mu, cell by cell
     obl = [{'kind': 'equal', 'a': 'L', 'b': 'Le', 'cells': n * n, 'mode': 'ALG'}, {'kind': 'equal', 'a': 'U', 'b': 'Ue', 'cells': n * n, 'mode': 'ALG'}]
-    return Witness('lu_%s_%s_%d%s' % (t, strat, n, '_band%d' % band if band else ''), 'lu.' + strat + ('.banded' if band else '.full'), {'type': t, 'n': n, 'strategy': strat, 'band': band}, wit, ref, regions, stages, obl,
+    return Witness('lu_%s_%s_%d%s' % (t, strat, n, band_tag(band)), 'lu.' + strat + ('.banded' if isinstance(band, int) else ('.' + band if band else '.full')), {'type': t, 'n': n, 'strategy': strat, 'band': band}, wit, ref, regions, stages, obl,
                    extra={'poly_cap': 600000, 'max_steps': 300000000})
 
 
@@ -93,10 +93,11 @@ def witnesses(tier, seed):
                 if t == 'f32' and quick and n > 5 and n != 9:
                     continue
                 W.append(mk(t, n, strat))
-            for n in ([12, 16, 17, 33] if quick else [32, 33, 64, 65]):
+            for n in ([12, 16, 17, 33, 40, 65] if quick else [32, 33, 40, 64, 65, 79, 80, 128, 129]):
                 if t == 'f32' and quick and n != 17:
                     continue
                 W.append(mk(t, n, strat, band=1))
+                W.append(mk(t, n, strat, band='arrow')); W.append(mk(t, n, strat, band='arrow1')); W.append(mk(t, n, strat, band='hub'))
             for n in (1, 2, 3, 4, 5, 8, 9, 12, 16, 17):
                 W.append(mk_structure(t, n, strat))
     W += pivot_helper_witnesses(['recon_vec', 'recon_mat', 'apply_mat', 'apply_vec', 'recon2'], tier)
